@@ -95,7 +95,7 @@ pub fn run(args: &Args) -> Report {
         check_bytes(&mut rep, &bytes, "replay");
         return rep;
     }
-    let ndocs = if args.thorough { 3000 } else { 200 };
+    let ndocs = if args.thorough { 9000 } else { 200 };
     for d in 0..ndocs {
         let text = doc(&mut rng);
         let reference = match a2lgen::load(&text) {
@@ -181,7 +181,7 @@ pub fn run(args: &Args) -> Report {
         }
     }
     // arbitrary bytes
-    let nbytes = if args.thorough { 300_000 } else { 12_000 };
+    let nbytes = if args.thorough { 1_200_000 } else { 12_000 };
     let prefixes: [&[u8]; 12] = [b"", &[0xEF, 0xBB, 0xBF], &[0xFF, 0xFE], &[0xFE, 0xFF], &[0xFF, 0xFE, 0, 0], &[0, 0, 0xFE, 0xFF], &[0x41, 0], &[0, 0x41], &[0x41, 0, 0, 0], &[0, 0, 0, 0x41], &[0xD8, 0x00], &[0x00, 0xD8]];
     let alphabet: [u8; 16] = [0, 1, 0x41, 0x7f, 0x80, 0xBF, 0xC3, 0xE2, 0xF0, 0xFF, 0xFE, 0xD8, 0xDC, 0x20, 0x0A, 0x22];
     for i in 0..nbytes {
